@@ -518,7 +518,7 @@ package common
 // (each implementation is verified against it: <fork>.BeaconStateView.ProcessEpoch / ProcessBlock, UpgradeMaybe)
 //@ func (s BeaconState) ProcessEpoch(ctx, spec, epc) err
 //@   trusted
-//@   assigns anything, ghost(ctx_t), ghost(ctx_seen)
+//@   assigns anything, ghost(ctx_t), ghost(ctx_seen), ghost(n_set_prevjust), ghost(set_prevjust), ghost(n_set_curjust), ghost(set_curjust), ghost(n_set_fin), ghost(set_fin), ghost(n_set_jbits), ghost(set_jbits)
 //@   ensures cancelled: ctx_cancelled(ctx, old(ctx_t)) ==> err != nil
 //@   ensures surfaced: !old(ctx_seen) && ctx_seen ==> err != nil
 //@   ensures polled: err == nil && ctx_t > old(ctx_t) ==> !ctx_cancelled(ctx, old(ctx_t))
@@ -970,6 +970,7 @@ package common
 //@   loop 1
 //@     invariant ctx_t == old(ctx_t) ==> currentSlot < slot
 //@   ensures c03_forward: err == nil ==> !st_slot_err(state) && st_slot(state) < slot
+//@   assigns ghost(n_set_prevjust), ghost(set_prevjust), ghost(n_set_curjust), ghost(set_curjust), ghost(n_set_fin), ghost(set_fin), ghost(n_set_jbits), ghost(set_jbits)
 
 //@ func StateTransition(ctx, spec, epc, state, benv, validateResult) err
 //@   property C18
@@ -986,6 +987,7 @@ package common
 //@     invariant ctx_t >= old(ctx_t) && (old(ctx_seen) || !ctx_seen)
 //@     invariant ctx_t > old(ctx_t) ==> !ctx_cancelled(ctx, old(ctx_t))
 //@   assigns ghost(n_eng_notify), ghost(n_set_exec_header)
+//@   assigns ghost(n_set_prevjust), ghost(set_prevjust), ghost(n_set_curjust), ghost(set_curjust), ghost(n_set_fin), ghost(set_fin), ghost(n_set_jbits), ghost(set_jbits)
 
 //@ func PostSlotTransition(ctx, spec, epc, state, benv, validateResult) err
 //@   property C18 C03
